@@ -30,126 +30,127 @@ def p5_shape_change(prog):
             r.viol('P5', 'missing/Entry::' + name, '-', 'Entry::%s not found' % name)
             continue
         f = fs[0]
-        body = f.body
         key = 'Entry::' + name
         r.inst(key)
-        se = SymEval(prog, body)
-        # the branch on identifier bit
-        tests = [(b, t) for b, t in body.calls(lambda c: c['name'] == 'get_unchecked' and 'IdentifierRef' in c['path'])]
-        if len(tests) != 1:
-            r.viol('P5', key + '/bit-test', f.loc(), 'expected exactly one test of the component bit in the entity\'s archetype identifier')
+        E = pathsem.analyse(prog, f)
+        rets = [p for p in E.paths if p.ended == 'return']
+        rep = set()
+
+        def once(k, ln, msg, key=key, f=f, rep=rep):
+            if k not in rep:
+                rep.add(k)
+                r.viol('P5', key + '/' + k, f.loc(ln), msg)
+        if E.truncated or not rets:
+            once('not-analysable', None, 'path enumeration cut off')
             continue
-        tb, tt = tests[0]
-        idx = se.operand(tt['args'][1], (tb, None))
-        want = None
-        if idx is not None:
-            pos = [k for k, v in idx.terms.items() if v == 1 and k.startswith('LEN<')]
-            neg = [k for k, v in idx.terms.items() if v == -1 and k.startswith('INDEX<')]
-            if not (len(pos) == 1 and len(neg) == 1 and idx.const == -1 and len(idx.terms) == 2):
-                r.viol('P5', key + '/bit-index', f.loc(tt['ln']), 'component bit index is %s, expected LEN - INDEX - 1' % idx)
-        sw = [(b, body.term(b)) for b in range(body.n) if body.term(b)['k'] == 'switch' and op_local(body.term(b)['discr']) == tt['dest']['l']]
-        if len(sw) != 1 or 0 not in sw[0][1]['values']:
-            r.viol('P5', key + '/branch', f.loc(), 'bit test does not control a branch')
-            continue
-        sb, st = sw[0]
-        present_t, absent_t = st['otherwise'], st['targets'][st['values'].index(0)]
-        move_t = present_t if want_edge else absent_t
-        stay_t = absent_t if want_edge else present_t
+        S = pathsem.strip_refs
+        me = ('p', 1, f.body.local_name(1) or 'self')
+        SAMPLES = [(1, 0), (8, 3), (9, 0), (9, 8), (17, 16), (20, 7), (64, 31)]
+
+        def leaf_for(L, I, extra=None):
+            def leaf(t):
+                if t[0] == 'k' and isinstance(t[1], str):
+                    if '::LEN<' in t[1]:
+                        return L
+                    if '::INDEX<' in t[1]:
+                        return I
+                if extra is not None:
+                    return extra(t)
+                return None
+            return leaf
+
+        def is_test(a_):
+            return isinstance(a_, tuple) and a_[0] == 'call' and a_[1].endswith('::get_unchecked') and 'IdentifierRef' in a_[1] and len(a_[2]) == 2
         steps = ['pop_row_unchecked', 'get_mut_or_insert_new', push_name, 'modify_location_unchecked']
-        blocks = []
-        for n in steps:
-            cs = [(b, t) for b, t in body.calls(lambda c, n=n: c['name'] == n)]
-            if len(cs) != 1:
-                r.viol('P5', key + '/step-count/' + n, f.loc(), 'shape change must call %s exactly once (found %d)' % (n, len(cs)))
-                blocks.append(None)
+        n_move = n_stay = 0
+        for p in rets:
+            tests = [(a_, v) for a_, v in p.conds if is_test(a_)]
+            calls = {n: p.calls(lambda e, n=n: e['name'] == n) for n in steps}
+            if len(tests) != 1:
+                once('bit-test', None, 'expected exactly one test of the component bit in the entity\'s archetype identifier on every path')
+                continue
+            (ta, tv) = tests[0]
+            for (L, I) in SAMPLES:
+                got = pathsem.evaluate(ta[2][1], leaf_for(L, I))
+                if got != L - I - 1:
+                    once('bit-index', None, 'component bit index evaluates to %s for LEN=%d INDEX=%d, expected LEN - INDEX - 1' % (got, L, I))
+                    break
+            if not pathsem.mentions(ta[2][0], lambda t: t == me):
+                once('bit-test', None, 'the bit test is not applied to the entry\'s own archetype identifier')
+            moving = (tv is want_edge)
+            if not moving:
+                n_stay += 1
+                for n in steps:
+                    if calls[n]:
+                        once('moves-on-stay-branch/' + n, calls[n][0]['ln'], '%s reachable on the branch that must leave the entity in place' % n)
+                continue
+            n_move += 1
+            bad_count = [n for n in steps if len(calls[n]) != 1]
+            if bad_count:
+                once('step-count/' + bad_count[0], None, 'shape change must call %s exactly once on the moving path (found %d)' % (bad_count[0], len(calls[bad_count[0]])))
+                continue
+            pop, gmi, push, mod = (calls[n][0] for n in steps)
+            if not (pop['i'] < gmi['i'] < push['i'] < mod['i']):
+                once('order/%s' % '-'.join(n for n, _ in sorted(((n, calls[n][0]['i']) for n in steps), key=lambda x: x[1])), None, 'pop, archetype lookup, push and location update must happen in this order')
+            # popped row: the entry's own row of the entry's own archetype
+            li = adt_field_index(prog, 'world::entry::Entry', 'location')
+            loc_i = adt_field_index(prog, 'entity::allocator::location::Location', 'index')
+            if not (pathsem.is_field_of(pop['args'][1], 'entity::allocator::location::Location', loc_i) and pathsem.mentions(pop['args'][1], lambda t: t == me)):
+                once('pops-other-row', pop['ln'], 'the row popped is not the entry\'s own row')
+            # bit flip on the copied identifier bytes
+            flips = [e for e in p.events if e['k'] == 'store' and pop['i'] < e['i'] < gmi['i'] and
+                     pathsem.mentions(e['loc'], lambda t: t[0] == 'call' and t[1].rsplit('::', 1)[-1] in ('get_unchecked_mut', 'index_mut', 'get_mut'))]
+            if len(flips) != 1:
+                once('bit-flip', None, 'expected exactly one bit update of the copied identifier on the move branch (found %d)' % len(flips))
             else:
-                blocks.append(cs[0])
-        if any(x is None for x in blocks):
-            continue
-        for n, (b, t) in zip(steps, blocks):
-            if not body.edge_dominates((sb, move_t), b):
-                r.viol('P5', key + '/step-on-wrong-branch/' + n, f.loc(t['ln']), '%s is not confined to the branch where the component is %s' % (n, 'present' if want_edge else 'absent'))
-        for (n1, (b1, t1)), (n2, (b2, t2)) in zip(zip(steps, blocks), list(zip(steps, blocks))[1:]):
-            if not body.dominates(b1, b2):
-                r.viol('P5', key + '/order/%s-%s' % (n1, n2), f.loc(t2['ln']), '%s must happen before %s on every path' % (n1, n2))
-        if not body.must_pass(move_t, [blocks[3][0]], body.return_blocks()):
-            r.viol('P5', key + '/location-not-updated', f.loc(), 'a path moves the row without updating the allocator\'s location for the entity')
-        # popped row at the entry's own location
-        pb, pt = blocks[0]
-        if receiver_name(prog, body, pt['args'][1]) != 'self.location.index':
-            r.viol('P5', key + '/pops-other-row', f.loc(pt['ln']), 'the row popped is not the entry\'s own row')
-        # new location = (archetype.identifier(), returned index); stored in allocator AND in self.location
-        mb, mt = blocks[3]
-        locs = [(b, t) for b, t in body.calls(lambda c: c['name'] == 'new' and 'location::Location' in c['path'])]
-        pushb, pusht = blocks[2]
-        if len(locs) != 1:
-            r.viol('P5', key + '/location-new', f.loc(), 'expected one Location::new')
-        else:
-            lb, lt = locs[0]
-            idxl = op_local(lt['args'][1])
-            if idxl is None or access_of_local(body, idxl).root != pusht['dest']['l']:
-                r.viol('P5', key + '/location-index', f.loc(lt['ln']), 'new location does not use the row index returned by the push')
-            idl = op_local(lt['args'][0])
-            d = single_def(body, access_of_local(body, idl).root) if idl is not None else None
-            if not (d and d[0] == 'call' and d[2]['f']['name'] == 'identifier'):
-                r.viol('P5', key + '/location-identifier', f.loc(lt['ln']), 'new location does not use the target archetype\'s identifier')
-            ml = op_local(mt['args'][2])
-            if ml is None or access_of_local(body, ml).root != lt['dest']['l']:
-                r.viol('P5', key + '/allocator-gets-other-location', f.loc(mt['ln']), 'allocator is not given the new location')
-            wrote_self = False
-            for b, i, s in body.stmts():
-                if s['k'] == 'assign' and s['place']['p'] and receiver_name(prog, body, {'copy': s['place']}) == 'self.location':
-                    l = op_local(s['rv']['op']) if s['rv']['k'] == 'use' else None
-                    if l is not None and access_of_local(body, l).root == lt['dest']['l'] and body.edge_dominates((sb, move_t), b):
-                        wrote_self = True
-            if not wrote_self:
-                r.viol('P5', key + '/entry-location-stale', f.loc(), 'the entry keeps its old location after the move: a second add/remove on the same entry would address the wrong row')
-        # entity identifier threaded: pop's result .0 -> push arg -> modify_location arg
-        # bit flip: a BitOr / BitXor / BitAnd with 1 << (idx % 8) on byte idx / 8 of the identifier copy
-        flips = [(b, i, s) for b, i, s in body.stmts() if s['k'] == 'assign' and s['rv']['k'] == 'binop' and s['rv']['op'] in ('BitOr', 'BitXor', 'BitAnd') and s['place']['p']]
-        flips = [x for x in flips if body.edge_dominates((sb, move_t), x[0])]
-        if len(flips) != 1:
-            r.viol('P5', key + '/bit-flip', f.loc(), 'expected exactly one bit update of the copied identifier on the move branch (found %d)' % len(flips))
-        else:
-            b, i, s = flips[0]
-            op = s['rv']['op']
-            ok = (op == 'BitOr') if name == 'add' else (op in ('BitXor', 'BitAnd'))
-            if not ok:
-                r.viol('P5', key + '/bit-flip-op', f.loc(s['ln']), 'Entry::%s must %s the component bit (found %s)' % (name, 'set' if name == 'add' else 'clear', op))
-            # mask = Shl(1, Rem(idx, 8)); byte = Div(idx, 8)
-            ml = op_local(s['rv']['b'])
-            d = resolve_def(body, ml) if ml is not None else None
-            ok_mask = False
-            if d and d[0] == 'assign' and d[3]['rv']['k'] == 'binop' and d[3]['rv']['op'].startswith('Shl'):
-                one = op_const(d[3]['rv']['a'])
-                sh = op_local(d[3]['rv']['b'])
-                d2 = resolve_def(body, sh) if sh is not None else None
-                if one is not None and one.get('val') == 1 and d2 and d2[0] == 'assign' and d2[3]['rv']['k'] == 'binop' and d2[3]['rv']['op'].startswith('Rem'):
-                    a = se.operand(d2[3]['rv']['a'], (d2[1], d2[2]))
-                    c8 = op_const(d2[3]['rv']['b'])
-                    ok_mask = a == idx and c8 is not None and c8.get('val') == 8
-            if op == 'BitAnd':
-                ok_mask = True   # &= !mask form: not modelled further
-            if not ok_mask:
-                r.viol('P5', key + '/bit-mask', f.loc(s['ln']), 'bit mask is not 1 << (component_index % 8)')
-            byte_calls = [(bb, t) for bb, t in body.calls(lambda c: c['name'] == 'get_unchecked_mut' and body.edge_dominates((sb, move_t), 0) is not None)]
-            okb = False
-            for bb, t in body.calls(lambda c: c['name'] in ('get_unchecked_mut', 'index_mut', 'get_mut')):
-                if not body.edge_dominates((sb, move_t), bb) or len(t['args']) < 2:
-                    continue
-                l = op_local(t['args'][1])
-                d3 = resolve_def(body, l) if l is not None else None
-                if d3 and d3[0] == 'assign' and d3[3]['rv']['k'] == 'binop' and d3[3]['rv']['op'].startswith('Div'):
-                    a = se.operand(d3[3]['rv']['a'], (d3[1], d3[2]))
-                    c8 = op_const(d3[3]['rv']['b'])
-                    if a == idx and c8 is not None and c8.get('val') == 8:
-                        okb = True
-            if not okb:
-                r.viol('P5', key + '/bit-byte', f.loc(s['ln']), 'updated byte is not component_index / 8 of the identifier copy')
-        # the stay branch must not move anything
-        for n, (b, t) in zip(steps, blocks):
-            if b in body.reachable(stay_t) and not body.edge_dominates((sb, move_t), b):
-                r.viol('P5', key + '/moves-on-stay-branch/' + n, f.loc(t['ln']), '%s reachable on the branch that must leave the entity in place' % n)
+                fl = flips[0]
+                bytecall = [t for t in pathsem.subterms(fl['loc']) if t[0] == 'call' and t[1].rsplit('::', 1)[-1] in ('get_unchecked_mut', 'index_mut', 'get_mut')][0]
+                oldbyte = fl['loc']
+                for (L, I) in SAMPLES:
+                    bit = L - I - 1
+                    bi = pathsem.evaluate(bytecall[2][1], leaf_for(L, I))
+                    if bi != bit // 8:
+                        once('bit-byte', fl['ln'], 'updated byte is not component_index / 8 of the identifier copy (LEN=%d INDEX=%d: byte %s)' % (L, I, bi))
+                        break
+                    okv = True
+                    for x in (0x00, 0xFF, 0xA5, 0x5A, 0x80, 0x01):
+                        if name == 'remove' and not (x >> (bit % 8)) & 1:
+                            continue      # the bit is known to be set on this path
+                        got = pathsem.evaluate(fl['value'], leaf_for(L, I, lambda t, x=x: x if (t == oldbyte or S(t) == S(oldbyte)) else None))
+                        want = (x | (1 << (bit % 8))) if name == 'add' else (x & ~(1 << (bit % 8)) & 0xFF)
+                        if got != want:
+                            okv = False
+                            once('bit-mask', fl['ln'], 'Entry::%s must %s exactly the component bit: byte 0x%02x becomes %s for LEN=%d INDEX=%d (expected 0x%02x)' % (name, 'set' if name == 'add' else 'clear', x, hex(got) if got is not None else got, L, I, want))
+                            break
+                    if not okv:
+                        break
+                # the archetype looked up is the one identified by the flipped copy
+                vec_root = S(bytecall[2][0])
+                if not pathsem.mentions(gmi['args'][1], lambda t: S(t) == vec_root or t == vec_root or pathsem.iter_chain(t)[0] == pathsem.iter_chain(vec_root)[0]):
+                    once('target-archetype', gmi['ln'], 'the target archetype is not looked up with the modified identifier copy')
+            # row threaded through: push gets the popped entity and bytes
+            row = pop['ret']
+            if not (S(push['args'][0]) == gmi['ret'] and pathsem.mentions(push['args'][1], lambda t: t == row) and pathsem.mentions(push['args'][2], lambda t: t == row)):
+                once('row-not-threaded', push['ln'], 'the popped row (identifier and packed components) is not what is pushed into the target archetype')
+            locs = [e for e in p.calls(lambda e: e['name'] == 'new' and 'location::Location' in e['path']) if e['i'] > push['i']]
+            if len(locs) != 1:
+                once('location-new', None, 'expected one Location::new after the push')
+                continue
+            lc = locs[0]
+            if S(lc['args'][1]) != push['ret']:
+                once('location-index', lc['ln'], 'new location does not use the row index returned by the push')
+            ida = S(lc['args'][0])
+            if not (isinstance(ida, tuple) and ida[0] == 'call' and ida[1].endswith('::identifier') and S(ida[2][0]) == gmi['ret']):
+                once('location-identifier', lc['ln'], 'new location does not use the target archetype\'s identifier')
+            if S(mod['args'][2]) != lc['ret']:
+                once('allocator-gets-other-location', mod['ln'], 'allocator is not given the new location')
+            if not pathsem.mentions(mod['args'][1], lambda t: t == row):
+                once('allocator-gets-other-entity', mod['ln'], 'the location is not updated for the entity that was moved')
+            wrote = [e for e in p.events if e['k'] == 'store' and pathsem.is_field_of(e['loc'], 'world::entry::Entry', li) and S(e['value']) == lc['ret']]
+            if not wrote:
+                once('entry-location-stale', None, 'the entry keeps its old location after the move: a second add/remove on the same entry would address the wrong row')
+        if not n_move or not n_stay:
+            once('branch', None, 'bit test does not control a branch (moving paths: %d, staying paths: %d)' % (n_move, n_stay))
     return r
 
 
